@@ -8,10 +8,10 @@ STUBS = "#[kani::stub(crc_any::CRCu32::digest, crate::util::stub_digest)]\n#[kan
 def generate(T, tier):
     G = msggen.MsgGen(T)
     code = []
-    hs = [{"name": "c12::clear_%s" % k, "group": "stub", "tier": "quick" if k in ("unsupported", "empty") else "thorough",
+    hs = [{"name": "c12::clear_%s" % k, "group": "clear", "tier": "quick" if k in ("unsupported", "empty") else "thorough",
            "bounds": "L1: every 1029-byte builder state (data[0]==0xD3, has_run) x %s: state after the call == fresh state" % d}
           for k, d in (("empty", "Message::Empty"), ("corrupt", "Message::Corrupt"), ("unsupported", "MsgNotSupported(any u16)"))]
-    hs.append({"name": "c12::fresh_state", "group": "stub", "tier": "quick", "bounds": "MessageBuilder::new() is [0xD3, 0, 0, ...] with the used-flag down"})
+    hs.append({"name": "c12::fresh_state", "group": "clear", "tier": "quick", "bounds": "MessageBuilder::new() is [0xD3, 0, 0, ...] with the used-flag down"})
     byvar = {m["module"]: m for m in T.messages}
     # smallest message that can fail part-way (contains a biased field => OutOfRange after some fields were written)
     cands = []
@@ -98,10 +98,16 @@ def generate(T, tier):
     hs.append({"name": "c12::fresh_eq", "group": "stub", "tier": "thorough", "bounds": "L2: fresh state with has_run = true vs MessageBuilder::new(), symbolic Msg1005"})
     hs.append({"name": "c12::inv_fail_after_write", "group": "stub", "tier": "thorough",
                "bounds": "fresh builder + a concrete Msg1230 refused after the first fields were written: used-flag up (or buffer untouched) afterwards"})
+    hs.append({"name": "c12::inv_fail_early", "group": "early", "tier": "quick",
+               "bounds": "fresh builder + a concrete Msg1020 refused at its second field (df040 below its bias) after the number and satellite id were written: used-flag up (or buffer untouched) afterwards"})
     gen.write_gen("c12_list.rs", "\n".join(code))
     return {
         "harnesses": hs,
-        "groups": {"stub": {"features": ["c12"], "est_gb": 8, "timeout_s": 3000, "max_jobs": 5, "unwindset": [["try_from_fn_erased", 392]], "kani_args": ["-Z", "stubbing"]}},
+        # "clear": the L1 lemma harnesses build no list type, so they need no per-loop bound and skip the
+        # codegen-only + show-loops pre-pass (the global unwind 1031 covers every loop they reach)
+        "groups": {"clear": {"features": ["c12"], "est_gb": 8, "timeout_s": 3000, "max_jobs": 5, "kani_args": ["-Z", "stubbing"]},
+                   "early": {"features": ["c12"], "est_gb": 8, "timeout_s": 3000, "max_jobs": 5, "kani_args": ["-Z", "stubbing"]},
+                   "stub": {"features": ["c12"], "est_gb": 8, "timeout_s": 3000, "max_jobs": 5, "unwindset": [["try_from_fn_erased", 392]], "kani_args": ["-Z", "stubbing"]}},
         "level": "model_checking",
         "functions": ["rtcm_rs::MessageBuilder::{new,build_message,clear_data}", "hooks: MessageBuilder::{verif_from_raw,verif_raw}"],
         "bounds": {"L1": "complete 1029-byte state", "typed": "messages %s with small lists; dirty window of 96 bytes" % [p[0] for p in plan],
